@@ -1,6 +1,31 @@
 //! Native replay of a Kani counterexample: `replay <harness> <hex,hex,...>`; each hex string is one recorded
 //! `kani::any()` byte vector (little endian), in call order.  Prints one line `REPLAY-RESULT: ...` and exits 0.
 #[cfg(not(kani))]
+mod counting {
+    use std::alloc::{GlobalAlloc, Layout, System};
+    use std::sync::atomic::Ordering;
+    /// Counts alloc + realloc calls into the harness crate's counter (C17 allocator-call obligations).
+    pub struct Counting;
+    unsafe impl GlobalAlloc for Counting {
+        unsafe fn alloc(&self, l: Layout) -> *mut u8 {
+            fc_harness::allocstub::NATIVE_CALLS.fetch_add(1, Ordering::SeqCst);
+            System.alloc(l)
+        }
+        unsafe fn dealloc(&self, p: *mut u8, l: Layout) {
+            System.dealloc(p, l)
+        }
+        unsafe fn realloc(&self, p: *mut u8, l: Layout, n: usize) -> *mut u8 {
+            fc_harness::allocstub::NATIVE_CALLS.fetch_add(1, Ordering::SeqCst);
+            System.realloc(p, l, n)
+        }
+    }
+}
+
+#[cfg(not(kani))]
+#[global_allocator]
+static GLOBAL: counting::Counting = counting::Counting;
+
+#[cfg(not(kani))]
 fn main() {
     use std::panic;
     let args: Vec<String> = std::env::args().collect();
